@@ -1,7 +1,6 @@
 package ledger
 
 import (
-	"errors"
 	"fmt"
 	"strings"
 
@@ -174,7 +173,7 @@ func (h volumesResourceHandler) ResolveFilter(
 			}}, nil
 		}
 	default:
-		return "", nil, fmt.Errorf("unsupported filter %s", property)
+		return "", nil, common.NewErrInvalidQuery("unsupported filter %s", property)
 	}
 }
 
@@ -203,7 +202,7 @@ func (h volumesResourceHandler) Project(
 }
 
 func (h volumesResourceHandler) Expand(_ common.ResourceQuery[ledger.GetVolumesOptions], property string) (*bun.SelectQuery, *common.JoinCondition, error) {
-	return nil, nil, errors.New("no expansion available")
+	return nil, nil, common.NewErrInvalidQuery("no expansion available")
 }
 
 var _ common.RepositoryHandler[ledger.GetVolumesOptions] = volumesResourceHandler{}
